@@ -187,11 +187,14 @@ def main(tier: str, seed: int) -> int:
     # clauses and never stalls, for every topology / layer list in scope
     from harness import gptdist as _gd
     if tier == 'quick':
-        dcs = _gd.design_cases(2, 3, 2, limit=100, seed=seed)
+        dcs = _gd.design_cases(2, 3, 2, limit=80, seed=seed) + \
+            _gd.design_cases(2, 2, 2, limit=20, seed=seed, P=2)
     else:
         dcs = (_gd.design_cases(3, 3, 1)
                + _gd.design_cases(3, 3, 2, limit=4000, seed=seed)
-               + _gd.design_cases(2, 2, 3, limit=2000, seed=seed))
+               + _gd.design_cases(2, 2, 3, limit=2000, seed=seed)
+               + _gd.design_cases(2, 2, 2, limit=1500, seed=seed, P=2)
+               + _gd.design_cases(2, 2, 3, limit=500, seed=seed, P=3))
     dbad, dstates, dtrans = _gd.check_design(dcs)
     states += dstates
     trans += dtrans
